@@ -2722,6 +2722,9 @@ func (r *Resolver) internalExchange(ctx context.Context, req *dns.Msg) (*dns.Msg
 	if q == nil {
 		return nil, errQueryerNotWired
 	}
+	if err := verifhook.Fail("resolver.internal-exchange"); err != nil {
+		return nil, err
+	}
 	return (*q).Query(ctx, req)
 }
 
